@@ -8,3 +8,4 @@ import CprocVerif.Props.C04
 import CprocVerif.Props.C19
 import CprocVerif.Props.C20
 import CprocVerif.Props.C14
+import CprocVerif.Props.C05
